@@ -47,7 +47,16 @@ def warm_up():
 # --------------------------------------------------------------------------
 # helpers
 # --------------------------------------------------------------------------
+def plan_val(x):
+    """Plan (JSON) value -> Python value handed to the library."""
+    if isinstance(x, dict) and "__nd__" in x:
+        return np.array(x["__nd__"])
+    return x
+
+
 def canon_val(x):
+    if isinstance(x, dict) and "__nd__" in x:
+        return [canon_val(i) for i in x["__nd__"]]
     if isinstance(x, np.generic):
         return x.item()
     if isinstance(x, np.ndarray):
@@ -119,13 +128,13 @@ class ScriptedRunner(SimulationRunner):
                 vals = list(spec["values"])
                 self.params.add(name, np.array(vals) if spec.get("array") else vals)
             elif name in cfg["fixed"]:
-                self.params.add(name, cfg["fixed"][name])
+                self.params.add(name, plan_val(cfg["fixed"][name]))
         for name in (cfg.get("unpack_order") or sorted(cfg["unpacked"])):
             if name in cfg["unpacked"]:
                 self.params.set_unpack_parameter(name)
         for name in cfg["fixed"]:
             if name not in order:
-                self.params.add(name, cfg["fixed"][name])
+                self.params.add(name, plan_val(cfg["fixed"][name]))
         for name in cfg["unpacked"]:
             if name not in order:
                 spec = cfg["unpacked"][name]
@@ -296,7 +305,7 @@ class World:
     def names(self, cfg):
         sp = SimulationParameters()
         for name in sorted(cfg["fixed"]):
-            sp.add(name, cfg["fixed"][name])
+            sp.add(name, plan_val(cfg["fixed"][name]))
         for name in sorted(cfg["unpacked"]):
             spec = cfg["unpacked"][name]
             sp.add(name, np.array(spec["values"]) if spec.get("array") else list(spec["values"]))
@@ -543,8 +552,12 @@ class World:
                 if inc.get("set_rep_max") is not None:
                     self.runner.rep_max = int(inc["set_rep_max"])
                     self.cur_rep_max = int(inc["set_rep_max"])
+                if inc.get("set_delete") is not None:
+                    self.runner.delete_partial_results_bool = bool(inc["set_delete"])
                 if inc["call"]["kind"] == "all":
                     self.runner.simulate()
+                elif inc["call"].get("as_str"):
+                    self.runner.simulate(str(inc["call"]["i"]))       # command-line style index
                 else:
                     self.runner.simulate(inc["call"]["i"])
             finally:
@@ -943,7 +956,7 @@ def _check_completed(w, pid, res, k, inc, cfg, pname, pred, final_name, parts, s
         if got != want or list(got_rr) != exp_reps:
             add_violation(res, pid + ".final_file", k, "results file holds ids %s / reps %s, run produced %s / %s" % (got, got_rr, want, exp_reps), sig_f)
             return
-        if not cfg.get("delete_partials"):
+        if not r.delete_partial_results_bool:           # the runner's CURRENT setting (a history may have changed it)
             _, _, dnow = w.observe_durable(cfg)
             for v in pred["idxs"]:
                 d = dnow[v]
